@@ -262,6 +262,23 @@ check('C09', 'specs/WalletSync.tla + specs/MCWalletSync.tla + specs/WalletSyncTr
       'of transactions per address (<= 100); amounts below 2^31; headers not validated here (C07/C08).',
       'TLC exhaustive model of update_history interleavings + TLC-judged quiescent points of real wallet sync runs', 'DESIGN.md 5/C09')
 
+check('C13', 'specs/WalletCrypt.tla + specs/WalletCryptTrace.tla + specs/AtomicSave.tla + specs/AtomicSaveTrace.tla + harness/c13_wallet.py',
+      'TLC explores every API history (encrypt / lock / unlock / decrypt / save / reload / pack / unpack / add account) of a symbolic-encryption model of '
+      'the wallet (<=3 accounts of all kinds, 2-3 passwords, 7-10 calls; also imported accounts with mixed ciphertexts) and checks the round trip, '
+      'refusal-without-change and no-plaintext-in-the-written-file clauses, with reachability witnesses. TLC-generated behaviours and seeded random '
+      'histories are executed on the real Wallet/Account/WalletStorage objects, each unlock preceded by ~100-250 random and near-miss wrong passwords; TLC '
+      'validates every recorded observation (independently decrypted fields, byte scan of the wallet file, keys/addresses compared with the originals) '
+      'against the same clauses while the model runs alongside (drift reported). A generic file-system model with crashes before and within every '
+      'operation accepts the temp-file/flush/fsync/rename protocol and rejects seven non-atomic ones (negative controls); every real save is recorded by a '
+      'process-wide shim around open/os.*, judged by that model in every crash outcome of every prefix, and each crash state is materialised on disk and '
+      're-read by the real loader.',
+      'AES/SHA-256/scrypt treated as perfect; a stored string is classified by an independent AES-CBC decryption under the history\'s passwords. A crash '
+      'means process death (flushed data survives, any part of user-space buffers may survive); power loss is modelled but only reported. Rename within a '
+      'directory assumed atomic; the Windows remove+rename fallback is shown non-atomic in the model only. Refusal is vacuous for watch-only accounts and '
+      'for unlock on an unlocked wallet. Wallet merge / sync-apply not covered.',
+      'TLC exhaustive models (symbolic crypto; generic crash file-system) + behaviours replayed on the real wallet + TLC trace validation of observations and recorded file-system operations',
+      'DESIGN.md 5/C13')
+
 NOT_YET = 'check not built yet in this round (design in DESIGN.md section 5); will be claimed once its driver exists'
 ALL = [f'C{i:02d}' for i in range(1, 21)]
 
